@@ -70,14 +70,17 @@ def history(rng, nops=(2, 8), invalid_share=0.3, dtype_focus=False):
                         "wkind": wk, "dtype": dt, "keep": rng.random() < 0.85})
         elif kind == "of_arrays":
             nb = len(bb["bins"])
-            dt = rng.choice(DTYPES if dtype_focus else ["int64", "float64", "int32", "float32"])
+            dt = rng.choice((DTYPES + ["float64", "float64"]) if dtype_focus else ["int64", "float64", "int32", "float32"])
             isint = dt.startswith("int")
             big = dtype_focus and rng.random() < 0.4
             if big:
                 pool = {"int16": [32000, 30000, 100, 7], "int32": [32000, 70000, 2000000000, 7], "int64": [32000, 70000, 3000000000, 7],
-                        "float16": [60000.0, 100.0, 2.5], "float32": [70000.0, 1e5, 2.5, 3e38], "float64": [70000.0, 1e5, 2.5, 1e39],
+                        "float16": [60000.0, 100.0, 2.5], "float32": [70000.0, 1e5, 2.5, 3e38], "float64": [70000.0, 1e5, 2.5, 1e39, 9223372036854775808.0, 2147483648.0, 32768.0, 32767.0, 2147483647.0],
                         "float128": [70000.0, 1e5, 2.5, 1e39]}[dt]
                 f = [rng.choice(pool[:3] + [7, 17]) for _ in range(nb)]
+                if dt == "float64" and rng.random() < 0.7:
+                    # exactly ON the limits of the integer types: 2^15 - 1 and 2^31 - 1 fit, 2^15, 2^31 and 2^63 do not
+                    f[rng.randrange(nb)] = rng.choice(pool[4:])
                 e = None if rng.random() < 0.4 else [rng.choice(pool + [3, 137]) for _ in range(nb)]
                 if not isint:
                     f = [float(x) for x in f]
@@ -105,6 +108,13 @@ def history(rng, nops=(2, 8), invalid_share=0.3, dtype_focus=False):
     nfree = 3
     has_big = any(o["op"] == "of_arrays" and any(abs(float(Fraction(x))) > 20000 for x in o["freq"] + (o["err2"] or []))
                   for o in ops[:2])
+    LIMITS = {"9223372036854775808": "int64", "2147483648": "int32", "32768": "int16", "32767": "int16", "2147483647": "int32"}
+    on_limit = [(i, LIMITS[x]) for i, o in enumerate(ops[:2]) if o["op"] == "of_arrays" for x in o["freq"] if x in LIMITS]
+    if on_limit:
+        # a content exactly on a limit of an integer type: ask for that very type (2^15 - 1 and 2^31 - 1 fit, 2^15, 2^31, 2^63 do not)
+        i, t = on_limit[0]
+        ops.append({"op": "set_dtype", "h": i, "dtype": t, "maybe_refused": True, "via_property": rng.random() < 0.5})
+        tags.append("set_dtype_on_limit")
     for _ in range(rng.randint(*nops)):
         h = rng.choice([0, 0, 1])
         if has_big:
@@ -112,7 +122,7 @@ def history(rng, nops=(2, 8), invalid_share=0.3, dtype_focus=False):
             kind = rng.choice(["set_dtype", "set_dtype", "copy", "slice"])
             tags.append(kind)
             if kind == "set_dtype":
-                ops.append({"op": "set_dtype", "h": h, "dtype": rng.choice(DTYPES), "maybe_refused": True,
+                ops.append({"op": "set_dtype", "h": h, "dtype": rng.choice(DTYPES + ["int64", "int32", "int16", "int64"]), "maybe_refused": True,
                             "via_property": rng.random() < 0.5})
             elif kind == "copy":
                 ops.append({"op": "copy", "h": h, "out": nfree, "with_freq": True}); nfree += 1
